@@ -84,18 +84,22 @@ class Driver:
         self.midflight = scenario.get("midflight", True)
         self.fired: List[Tuple[Any, tuple]] = []
 
-    def heads(self, world: "WorldBase") -> List[int]:
+    def heads(self, world: "WorldBase", quiescent: bool = True) -> List[int]:
         res = []
         for i, (_, evs) in enumerate(self.sources):
-            if self.pos[i] < len(evs) and world.enabled(evs[self.pos[i]]):
-                res.append(i)
+            if self.pos[i] < len(evs):
+                ev = evs[self.pos[i]]
+                if not quiescent and ev[0] in ("tick", "pause_dt"):
+                    continue  # time only passes when the server has nothing left to do
+                if world.enabled(ev):
+                    res.append(i)
         return res
 
     def remaining(self) -> int:
         return sum(len(evs) - self.pos[i] for i, (_, evs) in enumerate(self.sources))
 
     def at_boundary(self, world: "WorldBase", quiescent: bool) -> Optional[tuple]:
-        heads = self.heads(world)
+        heads = self.heads(world, quiescent)
         if not quiescent:
             if not heads or not self.midflight:
                 return None
